@@ -127,6 +127,11 @@ func needQuoteSQLIdent(s string) bool {
 		return true
 	}
 
+	// SAFE_CAST and REPLACE_FIELDS are not reserved, but the parser never reads their bare spelling as an identifier.
+	if char.EqualFold(s, "SAFE_CAST") || char.EqualFold(s, "REPLACE_FIELDS") {
+		return true
+	}
+
 	// Then, check s can be parsed as TokenIdent without backquoted.
 	if !char.IsIdentStart(s[0]) {
 		return true
